@@ -16,7 +16,7 @@ from __future__ import annotations
 from dataclasses import dataclass
 from typing import Optional
 
-from .analysis import Desc, classify
+from .analysis import Desc, classify, enable_value
 
 
 @dataclass
@@ -34,8 +34,7 @@ class View:
 
 
 def _enable(desc: Desc, v: View, sid: int) -> int:
-    e = desc.sites[sid].stmt.get("enable")
-    return 1 if e is None else v.inputs.get(e, 0)
+    return enable_value(desc.sites[sid].stmt, v.inputs)
 
 
 def active(desc: Desc, v: View, sid: int) -> bool:
